@@ -2,12 +2,18 @@ mod json;
 mod report;
 mod tcommon;
 mod t_c08;
+mod t_c12;
+mod t_c18;
+mod t_c19;
 
 use report::Report;
 
 fn t_catalogue(prop: &str) -> Option<Vec<tcommon::Scn>> {
   match prop {
     "C08" => Some(t_c08::scenarios()),
+    "C12" => Some(t_c12::scenarios()),
+    "C18" => Some(t_c18::scenarios()),
+    "C19" => Some(t_c19::scenarios()),
     _ => None,
   }
 }
@@ -15,7 +21,7 @@ fn t_catalogue(prop: &str) -> Option<Vec<tcommon::Scn>> {
 fn check(prop: &str, tier: &str) -> i32 {
   rxverif_rt::exec::install_quiet_panic_hook();
   match prop {
-    "C08" => {
+    "C08" | "C12" | "C18" | "C19" => {
       let mut r = Report::new(prop, tier, "T");
       r.assumptions = t_assumptions();
       tcommon::run_scenarios(&mut r, t_catalogue(prop).unwrap(), tier);
